@@ -62,6 +62,9 @@ void harness(void)
     v1017 = 0;
     node_boot();                               /* PRE-OPERATIONAL            */
     CHECK(node.Nmt.Mode == CO_PREOP && node.Error == CO_ERR_NONE, "node boots");
+    for (i = 0; i < CO_SSDO_N; i++) {
+        CHECK(node.Sdo[i].Buf.Start == &od_sdo_buf[i][0], "every SDO server owns its own slice of the transfer buffer");
+    }
 
     tgt = od_find(tgts[TGT].idx, tgts[TGT].sub);
     alt = od_find(ALT_IDX, ALT_SUB);
